@@ -54,6 +54,13 @@ CHECKS['C03'] = dict(level=MC, ref='4 C03',
          'must end in YastnError, S4 fuse to depth<=3 / unfuse roundtrip; hard, meta and mixed; lazy transpositions.',
     note='bounded: ranks 2..4, universes of 2-3 charges, dims 1..2, 1260 (quick) / 12000 (thorough) scenarios; yastn.block (sum legs) not covered',
     technique='TLA+ label model of fusion (TensorOps) + TLC trace validation of recorded scenario programs')
+CHECKS['C14'] = dict(level=MC, ref='4 C14',
+    text='Hyper-traces: one generated program is executed under 8 configurations (3 tensordot policies x 2 default fusion modes + 2 force_fusion settings) and under 3 placements of '
+         'consume_transpose()/copy() on operands. Each execution is validated by TLC against the same exact reference (TraceTensor, so values / charge / signature agree with the reference and '
+         'hence with each other), and TraceHyper.tla compares the executions with each other event by event: outcome, signature, charge, fusion-tree shapes and legs (ObsEqAll).',
+    note='bounded: 140 (quick) / 2100 (thorough) programs of 7/9 steps from tensordot, add, trace, transpose, fuse/unfuse, conj, vdot, diag, broadcast, apply_mask, add/remove_leg; '
+         'svd/qr are compared across policies in C04 (gauge-invariant observables); contract_with_unroll (paths, unrolling, slicing) is NOT covered yet',
+    technique='TLA+ hyper-property over executions (TraceHyper) + per-execution trace validation against TensorOps')
 NA = {}
 m = {"version": 1, "setup_cmd": "true",
      "hooks": {"guard": "YASTN_VERIF", "enable": "no source hooks so far: the harness wraps the public API from outside and imports yastn live from /repo (override: VERIF_REPO)",
